@@ -122,6 +122,16 @@ def affinity {σ} (G : Geos σ) (g1 g2 : Geom) (tb fb : Rat) : Except Err Rat :=
     | .error e => .error e
     | .ok p2 => .ok (affinityP G p1 p2)
 
+/-- the bounds with which `compute_affinity` calls `compute_affinity_in_time`
+    (`none`: it raises, or takes the area branch) -/
+def timeBranchArgs {σ} (G : Geos σ) (g1 g2 : Geom) (tb fb : Rat) : Option (Rat × Rat × Rat × Rat) :=
+  match prepare G g1 tb fb, prepare G g2 tb fb with
+  | .ok p1, .ok p2 =>
+    if isTime p1 || isTime p2 then
+      some ((timeBounds G p1).1, (timeBounds G p1).2, (timeBounds G p2).1, (timeBounds G p2).2)
+    else none
+  | _, _ => none
+
 /-! ### time shift -/
 
 def shiftPts (d : Rat) (ps : List Pt) : List Pt := ps.map (fun p => (p.1 + d, p.2))
@@ -136,6 +146,11 @@ def _root_.SE.Geom.shift (d : Rat) : Geom → Geom
   | .multiPoint pts => .multiPoint (shiftPts d pts)
   | .multiLineString ls => .multiLineString (ls.map (shiftPts d))
   | .multiPolygon ps => .multiPolygon (ps.map (fun rings => rings.map (shiftPts d)))
+
+/-- a `Geos` that knows nothing (time-only pairs never consult it) -/
+def unitGeos : Geos Unit :=
+  { ofGeom := fun _ => (), buffered := fun _ _ _ => (), area := fun _ => 0, inter := fun _ _ => 0,
+    st := fun _ => 0, en := fun _ => 0 }
 
 /-! ### the rectangle instance (closed forms): GEOS restricted to boxes -/
 
